@@ -12,7 +12,7 @@ from .common import pin_environment, VERIF, jsonable, Timer, Result
 
 
 def _evidence_path(pid):
-    return os.path.join(VERIF, "evidence", f"{pid}.json")
+    return os.path.join(os.environ.get("GVERIF_EVIDENCE_DIR") or os.path.join(VERIF, "evidence"), f"{pid}.json")
 
 
 def _write_json(path, obj):
@@ -59,7 +59,7 @@ def cmd_check(pid, tier, seed):
         body = {"property": pid, "sig": sig, "msg": v.msg, "tier": tier, "seed": seed,
                 "replay": v.replay, "occurrences": len(vs)}
         h = hashlib.sha1(json.dumps(jsonable(body), sort_keys=True).encode()).hexdigest()[:10]
-        path = os.path.join(VERIF, "replays", f"{pid}-{h}.json")
+        path = os.path.join(os.environ.get("GVERIF_REPLAY_DIR") or os.path.join(VERIF, "replays"), f"{pid}-{h}.json")
         _write_json(path, body)
         replays.append(path)
         print(f"VIOLATION property={pid} replay={path}")
